@@ -48,21 +48,42 @@ func reqField(info *types.Info, e ast.Expr, name string) bool {
 // the return ("nil", "method:<key>", or "?"), and whether Err was set non-nil.
 func PathNext(fl *Flow, p *Path) (next string, errSet bool, site token.Pos) {
 	next = "nil" // statemachine.Run clears Next before calling a state
+	// locals that hold a state (a method value or nil) on this path: `next := s.A; …; next = s.B; req.Next = next`
+	held := map[types.Object]string{}
+	valueOf := func(rhs ast.Expr) string {
+		if rhs == nil {
+			return ""
+		}
+		if v := ValueKey(fl.Info, rhs); v == "nil" || strings.HasPrefix(v, "method:") {
+			return v
+		}
+		if o := ObjOf(fl.Info, rhs); o != nil {
+			return held[o]
+		}
+		return ""
+	}
 	for _, e := range p.Ev {
 		if e.Kind != EvAssign || e.Deferred {
 			continue
 		}
 		for i, l := range e.Lhs {
 			var rhs ast.Expr
-			if len(e.Rhs) == len(e.Lhs) {
-				rhs = e.Rhs[i]
+			if res := e.Results(); len(res) == len(e.Lhs) {
+				rhs = res[i]
+			}
+			if id, ok := ast.Unparen(l).(*ast.Ident); ok {
+				if o := fl.Info.ObjectOf(id); o != nil && !isRequestType(o.Type()) {
+					if v := valueOf(rhs); v != "" {
+						held[o] = v
+					} else {
+						delete(held, o)
+					}
+				}
 			}
 			switch {
 			case reqField(fl.Info, l, "Next"):
 				site = e.Pos
-				if rhs == nil {
-					next = "?"
-				} else if v := ValueKey(fl.Info, rhs); v == "nil" || strings.HasPrefix(v, "method:") {
+				if v := valueOf(rhs); v != "" {
 					next = v
 				} else {
 					next = "?"
@@ -262,6 +283,26 @@ func astInspectAssignNext(fn *Func, report func(string), info *types.Info) {
 				if reqField(info, l, "Next") && len(x.Rhs) == len(x.Lhs) {
 					v := ValueKey(info, x.Rhs[i])
 					if v == "" {
+						if o := ObjOf(info, x.Rhs[i]); o != nil {
+							// a local holding the state: every state value assigned to it anywhere in the function
+							n := 0
+							ast.Inspect(fn.Decl.Body, func(m ast.Node) bool {
+								if as, ok := m.(*ast.AssignStmt); ok && len(as.Lhs) == len(as.Rhs) {
+									for k, ll := range as.Lhs {
+										if ObjOf(info, ll) == o {
+											if vv := ValueKey(info, as.Rhs[k]); vv != "" {
+												report(vv)
+												n++
+											}
+										}
+									}
+								}
+								return true
+							})
+							if n > 0 {
+								continue
+							}
+						}
 						v = ExprStr(x.Rhs[i])
 					}
 					report(v)
